@@ -67,7 +67,6 @@ def main():
             results[sid] = res
             with open(respath, "w") as f:
                 json.dump(results, f, indent=1, sort_keys=True)
-    shutil.rmtree(os.path.join(VERIF, "replays"), ignore_errors=True)
 
 
 if __name__ == "__main__":
